@@ -29,13 +29,13 @@ type Scenario struct {
 	Keys    int    `json:"keys"`
 	// client op weights (per 100): apply is the remainder
 	WBarrier, WVerify, WGetConfig, WAnyNode int
-	ApplyTimeoutMs                          []int `json:"apply_timeout_ms"`
-	EndMs                                   int   `json:"end_ms"`  // when the fault phase ends
-	TailMs                                  int   `json:"tail_ms"` // convergence budget after the last fault
-	AutoRestartMs                           int   `json:"auto_restart_ms,omitempty"`
-	ShutdownPhase                           bool  `json:"shutdown_phase,omitempty"`
-	NoTailRestart                           bool  `json:"no_tail_restart,omitempty"`
-	Quiet                                   bool  `json:"quiet,omitempty"` // fault-free run (C13 second half)
+	ApplyTimeoutMs                          []int  `json:"apply_timeout_ms"`
+	EndMs                                   int    `json:"end_ms"`  // when the fault phase ends
+	TailMs                                  int    `json:"tail_ms"` // convergence budget after the last fault
+	AutoRestartMs                           int    `json:"auto_restart_ms,omitempty"`
+	ShutdownPhase                           bool   `json:"shutdown_phase,omitempty"`
+	NoTailRestart                           bool   `json:"no_tail_restart,omitempty"`
+	Quiet                                   bool   `json:"quiet,omitempty"`  // fault-free run (C13 second half)
 	Script                                  string `json:"script,omitempty"` // programmatic nemesis (see scripts.go) run instead of Steps
 }
 
@@ -179,6 +179,27 @@ func Generate(family string, seed int64, idx int) Scenario {
 		sc.Steps, sc.EndMs = steps, end+4*sc.P.HeartbeatMs
 	case "fig8x":
 		genFig8x(r, &sc)
+	case "cfggate", "cfgquorum":
+		// C07/C03: a membership change requested from a leader before an entry of its own term is
+		// committed (cfggate: in the instant it is elected; cfgquorum: two such changes from
+		// leaders of different terms whose configurations have disjoint quorums)
+		p := &sc.P
+		p.Voters, p.NonVoters, p.Spares = pick(r, 3, 3, 5), 0, pick(r, 0, 1)
+		if family == "cfgquorum" {
+			p.Voters, p.Spares = 4, 0
+		}
+		p.PreVoteOff = make([]bool, p.N())
+		if r.Intn(2) == 0 {
+			for i := range p.PreVoteOff {
+				p.PreVoteOff[i] = true
+			}
+		}
+		p.ShutdownOnRemove = false
+		p.RestoreCommitted = false
+		p.SnapThreshold = 8192
+		p.ApplyDelayMs, p.PersistDelayMs, p.RestoreDelayMs = 0, 0, 0
+		sc.Clients = 0
+		sc.Script = family
 	case "snapterm":
 		// C04/C11: a server restores a snapshot, snapshots again before any command reaches its FSM,
 		// becomes leader and has to probe a follower exactly at its snapshot boundary
@@ -405,9 +426,19 @@ func genVerify(r *rand.Rand, sc *Scenario) {
 	sc.WVerify = 25
 	sc.WAnyNode = 30
 	t := 4 * p.HeartbeatMs
+	demoted := p.Voters >= 4 && r.Intn(2) == 0
+	if demoted {
+		// voters demoted under the leader that is then cut off from the remaining voters: the
+		// demoted servers stay reachable and keep answering, but they no longer count
+		sc.Steps = append(sc.Steps, Step{At: 3 * p.HeartbeatMs, Act: "demote-other", S: "demote"}, Step{At: 3*p.HeartbeatMs + p.HeartbeatMs/2, Act: "demote-other", S: "demote"})
+	}
 	for i := 0; i < 3+r.Intn(3); i++ {
 		t += p.HeartbeatMs/2 + r.Intn(2*p.HeartbeatMs)
-		sc.Steps = append(sc.Steps, Step{At: t - 5, Act: "verify", N: []int{-1}}, Step{At: t, Act: "lease-cut", V: []float64{float64(pick(r, 1, 1, 2, 0))}})
+		shape := pick(r, 1, 1, 2, 0)
+		if demoted && i == 0 {
+			shape = 1
+		}
+		sc.Steps = append(sc.Steps, Step{At: t - 5, Act: "verify", N: []int{-1}}, Step{At: t, Act: "lease-cut", V: []float64{float64(shape)}})
 		for k := 0; k < 8; k++ {
 			sc.Steps = append(sc.Steps, Step{At: t + k*p.LeaseMs/4 + r.Intn(5), Act: "verify-cut-leader"})
 		}
